@@ -6,6 +6,7 @@ import (
 	"fmt"
 	"math/big"
 	"sort"
+	"strings"
 
 	abci "github.com/cometbft/cometbft/abci/types"
 	sdk "github.com/cosmos/cosmos-sdk/types"
@@ -100,7 +101,7 @@ func (w *l2World) endOfBlock(bc blockCtx, res *abci.ResponseFinalizeBlock, anySu
 	last := map[string]int64{}
 	for _, lp := range gs.LastValidatorPowers {
 		for _, v := range vres.Validators {
-			if v.OperatorAddress == lp.Address {
+			if strings.EqualFold(v.OperatorAddress, lp.Address) { // the stored spelling may be the upper-case form
 				pk, _ := v.ConsPubKey()
 				last[hex.EncodeToString(pk.Bytes())] = lp.Power
 			}
